@@ -8,7 +8,7 @@
    of Python sets), every flag combination, every amount of fuel (so every prefix of a run).
    [EExecute t] = the actions of t start.  A task is finished once one of
    ESuccess / ESkipUpToDate / ESkipIgnore / EFailure was reported for it. *)
-From DoitV Require Import Base Dispatch Runner Parallel DispatchP DispatchInv RunnerP.
+From DoitV Require Import Base Dispatch Runner Parallel DispatchP DispatchInv RunnerTr RunnerP ParallelP.
 Open Scope N_scope.
 
 (* serial runner: whenever the actions of t start, every task t declares a dependency on --
@@ -25,6 +25,26 @@ Proof.
 Qed.
 Print Assumptions C01_serial_dep_order.
 
+(* parallel runners (MRunner with processes: proc = true; MThreadRunner: proc = false), every
+   number of workers, EVERY schedule (oracle [sched]: which enabled step -- "main dequeues a
+   result" or "worker w takes the next job / finishes its task" -- happens at each blocking point
+   of the main thread), every fuel: whenever the actions of t start in some worker ([PStart t w]),
+   every declared dependency of t has already got its final report in the merged log.
+   Consequently two tasks related by a dependency never execute concurrently: the dependency's final
+   report (issued by the main thread after its [PEnd]) precedes the dependent's [PStart]. *)
+Theorem C01_parallel_dep_order :
+  forall tasks wake_rank calc_rank continue_ always proc fuel nprocs sched selection pre t w post x,
+    fst (run_parallel tasks wake_rank calc_rank continue_ always proc fuel nprocs sched selection)
+      = pre ++ PStart t w :: post ->
+    In x (static_deps tasks t) ->
+    pfinished pre x.
+Proof.
+  intros tasks wake_rank calc_rank continue_ always proc fuel nprocs sched selection pre t w post x E Hx.
+  exact (pordered_split tasks _ (parallel_dep_order tasks wake_rank calc_rank continue_ always proc fuel nprocs sched selection)
+                        pre t w post E x Hx).
+Qed.
+Print Assumptions C01_parallel_dep_order.
+
 (* non-vacuity: a diamond with a setup-task and a calc_dep really executes, in dependency order *)
 Definition ex_tasks (n : name) : option task :=
   match n with
@@ -39,4 +59,10 @@ Example C01_serial_nonvacuous :
   map (fun e => match e with EExecute k => k | _ => 99 end)
       (filter is_exec (fst (run_serial ex_tasks (fun _ _ => 0) (fun _ => 0) false false 200 [0])))
   = [5; 3; 2; 1; 4; 0].
+Proof. vm_compute. reflexivity. Qed.
+
+Example C01_parallel_nonvacuous :
+  map (fun e => match e with PStart k w => (k, w) | _ => (99, 0%nat) end)
+      (filter is_pstart (fst (run_parallel ex_tasks (fun _ _ => 0) (fun _ => 0) false false false 200 3 [1;0;2;1;0;1;1;2]%nat [0])))
+  = [(5, 1%nat); (3, 0%nat); (2, 2%nat); (1, 0%nat); (4, 0%nat); (0, 0%nat)].
 Proof. vm_compute. reflexivity. Qed.
